@@ -22,17 +22,14 @@ def _build_shell_command(
     environment: MutableMapping[str, str] | None = None,
     workdir: str | None = None,
 ) -> str:
-    if environment or workdir:
-        subshell_parts = []
-        if workdir:
-            subshell_parts.append(f"cd {shlex.quote(workdir)}")
-        if environment:
-            for key, value in environment.items():
-                subshell_parts.append(f"export {key}={shlex.quote(value)}")
-        subshell_parts.append(" ".join(command))
-        cmd = f"sh -c {shlex.quote('; '.join(subshell_parts))} 2>&1"
-    else:
-        cmd = f"{' '.join(command)} 2>&1"
+    subshell_parts = []
+    if workdir:
+        subshell_parts.append(f"cd {shlex.quote(workdir)}")
+    if environment:
+        for key, value in environment.items():
+            subshell_parts.append(f"export {key}={shlex.quote(value)}")
+    subshell_parts.append(" ".join(command))
+    cmd = f"sh -c {shlex.quote('; '.join(subshell_parts))} 2>&1"
     if logger.isEnabledFor(logging.DEBUG):
         logger.debug(
             f"EXECUTING command {cmd} on {shell_class} "
